@@ -954,6 +954,13 @@ class Exec(Verifier):
         goals, keys = [], []
         for k, term in list(self.st.heap.items()):
             h0 = h0map.get(k, self._init_heap.get(k))
+            if h0 is None and k.startswith("$g:"):
+                # a ghost global that was first touched by a callee's effect: it has no recorded initial value, but it
+                # HAS been assigned -- it must be listed
+                if self.frame_allowed(k, modifies, targets) is not None:
+                    keys.append(k)
+                    goals.append(z3.BoolVal(False))
+                continue
             if h0 is None or term.get_id() == h0.get_id():
                 continue
             allowed = self.frame_allowed(k, modifies, targets)
